@@ -115,8 +115,18 @@ fn key(raw: u32) -> RegistryKey {
 }
 
 /// the single on-chain transaction all coins of the harness come from (block 0, index 0)
+fn origin_tx() -> Transaction {
+    Transaction::Script(Transaction::script(1, vec![7u8; 4], vec![], Policies::new(), vec![], vec![], vec![]))
+}
 fn origin_tx_id() -> Bytes32 {
-    Bytes32::new([7u8; 32])
+    origin_tx().id(&ChainId::default())
+}
+fn empty_block() -> Block {
+    let header = PartialBlockHeader {
+        application: ApplicationHeader::<Empty>::default(),
+        consensus: ConsensusHeader::<Empty> { height: BlockHeight::new(0), ..Default::default() },
+    };
+    PartialFuelBlock::new(header, vec![]).generate(&[], Default::default()).expect("block")
 }
 const N_COINS: u16 = 6;
 const N_MSGS: u8 = 6;
@@ -137,9 +147,10 @@ fn onchain_db() -> OnChain {
         application: ApplicationHeader::<Empty>::default(),
         consensus: ConsensusHeader::<Empty> { height: BlockHeight::new(0), ..Default::default() },
     };
-    let block: Block = PartialFuelBlock::new(header, vec![]).generate(&[], Default::default()).expect("block");
-    let mut compressed = block.compress(&ChainId::default());
-    *compressed.transactions_mut() = vec![origin_tx_id()];
+    let block: Block =
+        PartialFuelBlock::new(header, vec![origin_tx()]).generate(&[], Default::default()).expect("block");
+    let compressed = block.compress(&ChainId::default());
+    assert_eq!(compressed.transactions(), &[origin_tx_id()]);
     db.storage_as_mut::<FuelBlocks>().insert(&BlockHeight::new(0), &compressed).expect("insert block");
     for j in 0..N_COINS {
         let (owner, amount, asset_id) = coin_info(j);
@@ -428,11 +439,12 @@ fn collect_code_ids(t: &T, acc: &mut BTreeMap<Bytes32, u32>) {
             }
         }
         T::L(l) => l.iter().for_each(|x| collect_code_ids(x, acc)),
+        _ => {}
     }
 }
 
 fn set_cursor(store: &mut CStore, ks: u32, k: RegistryKey) {
-    let dummy = Block::default();
+    let dummy = empty_block();
     let mut tx = store.write_transaction();
     {
         let mut ctx = CompressionContext::create_from_block(&mut tx, &dummy, ChainId::default()).expect("context");
